@@ -36,6 +36,32 @@ def Err.name : Err → String
   | .containerNameScale => "containerNameScale" | .watchTarget => "watchTarget" | .secretSource => "secretSource"
   | .requiredDisabled => "requiredDisabled" | .unknownService => "unknownService" | .cycle => "cycle"
 
+/-- the format string of the Go error return that the class stands for -/
+def Err.site : Err → String
+  | .noImage => "service %q has neither an image nor a build context specified: %w"
+  | .dockerfileExclusive => "service %q declares mutualy exclusive dockerfile and dockerfile_inline: %w"
+  | .platformMismatch => "service.build.platforms MUST include service.platform %q: %w"
+  | .networkModeExclusive => "service %s declares mutually exclusive `network_mode` and `networks`: %w"
+  | .undefinedNetwork => "service %q refers to undefined network %s: %w"
+  | .healthcheck => "healthcheck.test must start either by \"CMD\", \"CMD-SHELL\" or \"NONE\""
+  | .undefinedDependency => "service %q depends on undefined service %q: %w"
+  | .networkModeService => "service %q not found for network_mode 'service:%s'"
+  | .undefinedVolume => "service %q refers to undefined volume %s: %w"
+  | .undefinedBuildSecret => "service %q refers to undefined build secret %s: %w"
+  | .undefinedConfig => "service %q refers to undefined config %s: %w"
+  | .undefinedSecret => "service %q refers to undefined secret %s: %w"
+  | .scaleReplicas => "services.%s: can't set distinct values on 'scale' and 'deploy.replicas': %w"
+  | .cpus => "services.%s: can't set distinct values on 'cpus' and 'deploy.resources.limits.cpus': %w"
+  | .memLimit => "services.%s: can't set distinct values on 'mem_limit' and 'deploy.resources.limits.memory': %w"
+  | .memReservation => "services.%s: can't set distinct values on 'mem_reservation' and 'deploy.resources.reservations.memory': %w"
+  | .pidsLimit => "services.%s: can't set distinct values on 'pids_limit' and 'deploy.resources.limits.pids': %w"
+  | .containerNameScale => "services.%s: can't set container_name and %s as container name must be unique: %w"
+  | .watchTarget => "services.%s.develop.watch: target is required for non-rebuild actions: %w"
+  | .secretSource => "secret %q must declare either `file` or `environment`: %w"
+  | .requiredDisabled => "service %q is required by %q but is disabled. Can be enabled by profiles %s"
+  | .unknownService => "service %q depends on unknown service %q"
+  | .cycle => "dependency cycle detected: %s -> %s"
+
 structure Build where
   dockerfile : String := ""
   inline : String := ""
